@@ -138,6 +138,15 @@ pub fn shrink_case(c: &Case) -> Vec<Value> {
         n.ef_construction = 100;
         out.push(to_value(&n));
     }
+    if c.queries.iter().any(|q| q.filtered) {
+        for (qi, q) in c.queries.iter().enumerate() {
+            if q.filtered {
+                let mut n = c.clone();
+                n.queries[qi].filtered = false;
+                out.push(to_value(&n));
+            }
+        }
+    }
     // narrower searches / smaller k
     for (qi, q) in c.queries.iter().enumerate() {
         for (k, ef) in [(q.k.min(10), q.ef.min(32)), (1, q.ef), (q.k, 1)] {
